@@ -13,6 +13,7 @@ import (
 	"path/filepath"
 	"runtime"
 	"runtime/debug"
+	"sort"
 	"sync"
 
 	"github.com/RoaringBitmap/roaring/v2"
@@ -276,8 +277,18 @@ type EvObs struct {
 
 // ReadStress: g goroutines read shared segments (built, opened, merged) at the same time - complete
 // observations with private probes, early-stopped visits, DocID - while merges use them as inputs.
+func sortedFileKeys(m map[int]*universe) []int {
+	ks := []int{}
+	for k := range m {
+		ks = append(ks, k)
+	}
+	sort.Ints(ks)
+	return ks
+}
+
 func (l *Life) ReadStress(p *GenProfile, g, rounds int, tag string) {
-	l.Reset(1024, tag)
+	// a doc-value chunk size of 2: even small segments have many doc-value chunks
+	l.Reset(2, tag)
 	var shared []*hseg
 	idBase := 0
 	for i := 0; i < 2; i++ {
@@ -302,6 +313,26 @@ func (l *Life) ReadStress(p *GenProfile, g, rounds int, tag string) {
 				shared = append(shared, h)
 			}
 		}
+	}
+	// cold copies: segments opened from the same files whose lazily filled caches (FST map, synonym cache)
+	// have not been touched yet - the concurrent readers below are their first users
+	for _, k := range sortedFileKeys(l.files) {
+		if l.fileZ[k] {
+			continue
+		}
+		seg, err := l.plugin.Open(l.path(k))
+		if err != nil {
+			continue
+		}
+		h := &hseg{sid: l.nextSid, seg: seg, uni: l.files[k], ndocs: l.fileN[k], lin: l.fileL[k]}
+		l.nextSid++
+		l.segs[h.sid] = h
+		l.tr.Emit(struct {
+			Ev   string `json:"ev"`
+			Sid  int    `json:"sid"`
+			File int    `json:"file"`
+		}{"fopen", h.sid, k})
+		shared = append(shared, h)
 	}
 	type job struct {
 		h  *hseg
@@ -328,28 +359,30 @@ func (l *Life) ReadStress(p *GenProfile, g, rounds int, tag string) {
 			}
 		}(i, jobs[i])
 	}
-	// meanwhile: merges that use the shared segments as inputs
-	wg.Add(1)
+	// meanwhile: two merges at a time that use the same shared segments as inputs
 	mdir := l.dir
-	go func() {
-		debug.SetPanicOnFault(true)
-		defer wg.Done()
-		plugin := &zap.ZapPlugin{}
-		for r := 0; r < rounds; r++ {
-			segs := []segment.Segment{}
-			drops := []*roaring.Bitmap{}
-			for _, h := range shared {
-				if !h.zero {
-					segs = append(segs, h.seg)
-					drops = append(drops, nil)
+	for mg := 0; mg < 2; mg++ {
+		wg.Add(1)
+		go func(mg int) {
+			debug.SetPanicOnFault(true)
+			defer wg.Done()
+			plugin := &zap.ZapPlugin{}
+			for r := 0; r < rounds; r++ {
+				segs := []segment.Segment{}
+				drops := []*roaring.Bitmap{}
+				for _, h := range shared {
+					if !h.zero {
+						segs = append(segs, h.seg)
+						drops = append(drops, nil)
+					}
 				}
+				path := filepath.Join(mdir, fmt.Sprintf("stress-%d-%d.zap", mg, r))
+				os.Remove(path)
+				plugin.Merge(segs, drops, path, nil, nil)
+				os.Remove(path)
 			}
-			path := filepath.Join(mdir, fmt.Sprintf("stress-%d.zap", r))
-			os.Remove(path)
-			plugin.Merge(segs, drops, path, nil, nil)
-			os.Remove(path)
-		}
-	}()
+		}(mg)
+	}
 	wg.Wait()
 	for _, h := range l.live() {
 		l.Close(h)
